@@ -514,7 +514,7 @@ func messagePrime(label string, msg []byte) []byte {
 func sectionComposite(x *h.X) {
 	pr := h.Pick(x, "pairing", pairings)
 	variant := h.Pick(x, "variant", []string{"NO_PREFIX", "TINK"})
-	path := h.Pick(x, "path", []string{"compositemldsa.NewSigner/NewVerifier", "signature.New*(handle)"})
+	path := h.Pick(x, "path", []string{"compositemldsa.NewSigner/NewVerifier", "signature.New*(handle)", "signature.New*(proto-handle)"})
 	id := uint32(0)
 	cv := compositemldsa.VariantNoPrefix
 	var prefix []byte
@@ -554,9 +554,17 @@ func sectionComposite(x *h.X) {
 	pub := pubK.(*compositemldsa.PublicKey)
 	var signer tink.Signer
 	var verifier tink.Verifier
-	if path == "signature.New*(handle)" {
+	if path != "compositemldsa.NewSigner/NewVerifier" {
 		var hd, phd *keyset.Handle
-		hd, err = tk.Single(priv)
+		if path == "signature.New*(handle)" {
+			hd, err = tk.Single(priv)
+		} else {
+			hid := id
+			if hid == 0 {
+				hid = 0x55
+			}
+			hd, err = tk.Handle([]tk.Entry{{Key: priv, ID: hid, Primary: true}})
+		}
 		if err == nil {
 			signer, err = signature.NewSigner(hd)
 		}
